@@ -562,6 +562,24 @@ func runC05(c *Ctx) {
 			}
 		}
 	}
+	// what follows the value when the value (and the white space behind it) ends at or near the end of a
+	// buffered window of the stream (Valid and the Decoder read 512-byte windows that double)
+	for _, win := range []int{512, 1024, 2048} {
+		for delta := -3; delta <= 2; delta++ {
+			n := win + delta
+			for _, tail := range []string{"", "x", "]", "{}", ",", " 1", "\"", "\n\t"} {
+				for _, mk := range []func(int) string{
+					func(n int) string { return `"` + strings.Repeat("a", n-2) + `"` },
+					func(n int) string { return "{}" + strings.Repeat(" ", n-2) },
+					func(n int) string { return "[1,2]" + strings.Repeat("\n", n-5) },
+					func(n int) string { return `{"k":[` + strings.Repeat("1,", (n-8)/2) + `1]}` + strings.Repeat(" ", (n-8)%2+1) },
+					func(n int) string { return strings.Repeat(" ", n-4) + "true" },
+				} {
+					c05Verdicts(c, []byte(mk(n)+tail), false)
+				}
+			}
+		}
+	}
 	// depth limit neighbourhood
 	for _, d := range []int{9999, 10000, 10001} {
 		doc := []byte(strings.Repeat("[", d) + strings.Repeat("]", d))
